@@ -25,6 +25,20 @@ class Cell(persistent.Persistent):
         self.log = []
 
 
+class Eager(Cell):
+    """Reloads its state the moment it is invalidated, as persistent
+    classes (ZODB.persistentclass) and objects with a re-activating
+    _p_invalidate do: it never waits as a ghost."""
+
+    def _p_invalidate(self):
+        Cell._p_invalidate(self)
+        if self._p_jar is not None and self._p_oid is not None:
+            try:
+                self._p_activate()
+            except Exception:       # noqa: B902 -- stays a ghost then
+                pass
+
+
 def merge_states(old, committed, new):
     """The deterministic three-way merge every Merge-like class uses."""
     out = dict(new)
@@ -67,8 +81,8 @@ class NewArgs(Cell):
         return ()
 
 
-CLASSES = {'Cell': Cell, 'Merge': Merge, 'Boom': Boom, 'Boom2': Boom2,
-           'NewArgs': NewArgs}
+CLASSES = {'Cell': Cell, 'Eager': Eager, 'Merge': Merge, 'Boom': Boom,
+           'Boom2': Boom2, 'NewArgs': NewArgs}
 
 MODULE = 'zsim.objs'
 
